@@ -375,7 +375,10 @@ func (ex *Exec) callContractSig(st *State, fr *Frame, cs *FuncSpec, sig *types.S
 	// the callee's sequential contract applies to an interfered state, not to the one this path last saw
 	if recvT != nil && cs.UnderLock == "" && !ex.preOnly && len(args) > 0 && args[0] != nil && args[0].T != nil && ex.calleeLocks(cs) {
 		if n, ok := types.Unalias(derefType(ex.env.resolve(recvT))).(*types.Named); ok && n.Obj().Pkg() != nil {
-			if m := ex.monitorDecl(n.Obj().Pkg().Path() + "." + n.Obj().Name()); m != nil && !st.held["."+m.Lock] {
+			if m := ex.monitorDecl(n.Obj().Pkg().Path() + "." + n.Obj().Name()); m != nil && st.held["."+m.Lock] {
+				// sync.Mutex is not re-entrant
+				ex.check(st, "lock", fmt.Sprintf("%s/lock:reentrant-call:%s#%d", ex.fnName(), short, ord), TFalse, "call of "+short+", which acquires "+m.Lock+", while holding it (self-deadlock)", ex.pos(instr))
+			} else if m != nil {
 				if _, isStruct := n.Underlying().(*types.Struct); isStruct {
 					name := "." + m.Lock
 					if st.locks[name] > 0 || st.locks["*cut*"] > 0 {
